@@ -256,7 +256,7 @@ func c06Verify(res *engine.Result, pre string, pmt psi.PMT, w *c06Want, deep boo
 
 // ---- carrier ----------------------------------------------------------------------------------
 
-var c06LeadNames = []string{"pointer_field=0", "pointer+filler", "pointer+filler", "pointer+filler", "foreign-section-first", "foreign-section-first", "other-pmt-section-first"}
+var c06LeadNames = []string{"pointer_field=0", "pointer+filler", "pointer+filler", "pointer+filler", "foreign-section-first", "foreign-section-first", "other-pmt-section-first", "two-large-foreign-sections-first"}
 
 // c06Payload assembles the complete payload: lead-in (pointer_field with filler, or pointer_field 0
 // and a complete foreign section), the PMT section, trailing stuffing.
@@ -269,9 +269,13 @@ func c06Payload(lead int, sec []byte, trail int) []byte {
 		p = append(ref.Pointer(0), ref.OtherSection(0x42, 3)...)
 	case lead == 5:
 		p = append(ref.Pointer(0), ref.OtherSection(0x42, 20)...)
-	default:
+	case lead == 6:
 		// another complete program map section (a different program) in front of the wanted one
 		p = append(ref.Pointer(0), ref.PMTBytes(c06Decoy, false)...)
+	default:
+		// two foreign sections of 153 bytes each (the unit gets several hundred bytes longer than the table)
+		p = append(ref.Pointer(0), ref.OtherSection(0xC0, 141)...)
+		p = append(p, ref.OtherSection(0xC1, 141)...)
 	}
 	p = append(p, sec...)
 	for i := 0; i < trail; i++ {
@@ -624,6 +628,65 @@ func c06CheckReuse(c c06ReuseCase) engine.Result {
 	return res
 }
 
+// ---- scenario "previous-unit": an earlier, unrelated payload unit on the PMT PID -------------------------
+
+type c06PrevCase struct {
+	Table   int `json:"table"`
+	S1Body  int `json:"first_foreign_section_body_bytes"`
+	Delta   int `json:"first_packet_ends_relative_to_section_end"`
+	PMTHead int `json:"pmt_first_packet_payload"`
+}
+
+// c06CheckPrev: the stream first carries a payload unit with two foreign sections on the PMT PID, cut so
+// that the first packet ends exactly on (or one byte before / after) the end of the first section, and
+// only then the unit with the program map section. ReadPMT must return that table.
+func c06CheckPrev(c c06PrevCase) engine.Result {
+	var res engine.Result
+	sec := c06ReuseSections[c.Table]
+	unit1 := append(ref.Pointer(0), ref.OtherSection(0xC0, c.S1Body)...)
+	cut := len(unit1) + c.Delta
+	unit1 = append(unit1, ref.OtherSection(0xC1, 30)...)
+	if cut < 1 || cut > 184 || cut >= len(unit1) {
+		return res
+	}
+	unit2 := append(ref.Pointer(0), ref.PMTBytes(sec, false)...)
+	var stream []byte
+	cc := byte(0)
+	emit := func(pusi bool, chunk []byte) {
+		p := ref.CarryPayload(0x64, pusi, cc, chunk)
+		cc++
+		stream = append(stream, p[:]...)
+	}
+	emit(true, unit1[:cut])
+	emit(false, ref.PadPayload(unit1[cut:], 184))
+	null := ref.CarryPayload(0x1FFF, false, 0, ref.PadPayload(nil, 184))
+	stream = append(stream, null[:]...)
+	h := c.PMTHead
+	if h > len(unit2) {
+		h = len(unit2)
+	}
+	emit(true, unit2[:h])
+	if h < len(unit2) {
+		emit(false, ref.PadPayload(unit2[h:], 184))
+	}
+	engine.Guard(&res, "ReadPMT|previous-unit", func() {
+		res.Evals++
+		pmt, err := psi.ReadPMT(bytes.NewReader(stream), 0x64)
+		cls := "first-packet-ends-on-section-end"
+		if c.Delta != 0 {
+			cls = "first-packet-ends-next-to-section-end"
+		}
+		if err != nil || pmt == nil {
+			res.Failf("ReadPMT|previous-unit,"+cls+"|error", "unit of two foreign sections (first packet carries %d of its bytes) followed by the table: %v", cut, err)
+			return
+		}
+		c06Verify(&res, "ReadPMT|previous-unit,"+cls+"|", pmt, c06MakeWant(&sec), true)
+	})
+	res.Nontrivial = 1
+	res.Outcome(c.Table, c.Delta, c.PMTHead)
+	return res
+}
+
 // c06Norm makes nil and empty slices compare equal.
 func c06Norm(s ref.PMTSection) ref.PMTSection {
 	if len(s.ProgDescs) == 0 {
@@ -809,7 +872,7 @@ func c06GenBig(r *engine.Run, emit func(c06BigCase)) {
 	}
 	for _, sl := range lens {
 		for v := 0; v < 2; v++ {
-			for _, lead := range []int{0, 3, 5} {
+			for _, lead := range []int{0, 3, 5, 7} {
 				for _, af := range []bool{false, true} {
 					if !r.Thorough() && (v == 1) != af {
 						continue
@@ -957,7 +1020,23 @@ func init() {
 						}
 					}
 				},
-				Check: witnessEnum(c06CheckReuse, witnessPSI), Batch: 4,
+				Check: witnessEnum(c06CheckReuse, witnessPSI), Batch: 128, // one batch = one worker: cases run back to back
+			},
+			&engine.Enum[c06PrevCase]{
+				Name: "previous-unit",
+				Rule: "4 tables x an earlier payload unit on the PMT PID made of two foreign sections whose first packet ends exactly on / one byte before / one byte after the end of the first section (first section of 183, 100, 50 or 13 bytes; shorter first packets use adaptation-field stuffing) x PMT first-packet payload {184, 50, 3}, a null packet in between: ReadPMT must skip the foreign unit, including its continuation packet, and return the table",
+				Gen: func(r *engine.Run, emit func(c06PrevCase)) {
+					for t := range c06ReuseSections {
+						for _, b := range []int{171, 88, 38, 1} {
+							for d := -1; d <= 1; d++ {
+								for _, h := range []int{184, 50, 3} {
+									emit(c06PrevCase{t, b, d, h})
+								}
+							}
+						}
+					}
+				},
+				Check: witnessEnum(c06CheckPrev, witnessPSI), Batch: 4,
 			},
 			&engine.Enum[c06HdrCase]{
 				Name: "table-header-codec",
